@@ -170,7 +170,7 @@ func Check12(c Case12, r *core.Rec) {
 			applyImpl(h, o.SP)
 			model = model.apply(o.SP)
 			namesInPlay = append(namesInPlay, string(o.SP.Name))
-			mut := o.SP.Op == "append" || o.SP.Op == "delete" || o.SP.Op == "set" || o.SP.Op == "sort" || o.SP.Op == "sortabs"
+			mut := o.SP.Op == "append" || o.SP.Op == "delete" || o.SP.Op == "set" || o.SP.Op == "sort" || o.SP.Op == "sortabs" || o.SP.Op == "iterate"
 			r.Class("op:sp-" + o.SP.Op)
 			if mut {
 				if sawSetSearch && handleBeforeSetSearch[hi] {
@@ -264,7 +264,7 @@ func Gen12(t *rapid.T) Case12 {
 			c.Ref = B(gen.Pick(t, "ref", []string{"", "#f", "#", "?x=1", "p", "/q?y=2", "../r", "?", "#?a=b"}))
 		}
 	}
-	spOps := []string{"append", "append", "delete", "set", "sort", "sortabs", "get", "has"}
+	spOps := []string{"append", "append", "delete", "set", "sort", "sortabs", "get", "has", "iterate", "string"}
 	genSP := func() Op12 {
 		o := SPOp{Op: gen.Pick(t, "spop", spOps)}
 		switch o.Op {
